@@ -854,9 +854,41 @@ def descriptor_rule(repo: Repo, rep, P: str):
     mm = repo.cls("MetaModule", module="rv.modules.metamodule")
     upd = mm.nested["MappingArray"].methods.get("update_user_defined_controllers")
     s = norm(upd) if upd else ""
-    if "zip(metamodule.mappings.values, metamodule.user_defined)" in s and "user_defined_controller.value_type = " in s:
+    from .. import inline
+    from ..packed import single_defs, resolve_names
+    verdict = "?"
+    if upd is not None:
+        fn = inline.normalize(repo, mm.nested["MappingArray"], upd)
+        mparam = fn.args.args[0].arg if fn.args.args else "metamodule"
+        defs = single_defs(fn)
+        sources: Dict[str, str] = {}          # loop target name -> the sequence its values come from
+
+        def bind(target, it):
+            it = resolve_names(it, defs)
+            if isinstance(target, ast.Name):
+                sources[target.id] = norm(it)
+            elif isinstance(target, ast.Tuple) and isinstance(it, ast.Call) and norm(it.func) == "zip" and len(it.args) == len(target.elts):
+                for t, a in zip(target.elts, it.args):
+                    bind(t, a)
+            elif isinstance(target, ast.Tuple) and isinstance(it, ast.Call) and norm(it.func) == "enumerate" and len(target.elts) == 2 and it.args:
+                bind(target.elts[1], it.args[0])
+        for lp in [n for n in ast.walk(fn) if isinstance(n, ast.For)]:
+            bind(lp.target, lp.iter)
+        stores = [n for n in ast.walk(fn) if isinstance(n, ast.Attribute) and isinstance(n.ctx, ast.Store) and n.attr in ("value_type", "default")]
+        owners = {norm(n.value) for n in stores}
+        if stores and all(isinstance(n.value, ast.Name) and sources.get(n.value.id) == f"{mparam}.user_defined" for n in stores):
+            verdict = "ok"
+        elif stores and any(isinstance(n.value, ast.Name) and ".controllers" in sources.get(n.value.id, "") for n in stores) \
+                or any(".controllers[" in o or ".controllers.values()" in o for o in owners):
+            verdict = "bad"
+        elif not stores:
+            verdict = "bad"
+    if verdict == "ok":
         rep.ok(f"{P}.R5", f"{mm.file.rel}:MetaModule.MappingArray.update_user_defined_controllers", "user_defined_controller from metamodule.user_defined",
                "value types are re-derived on the per-instance controller objects")
+    elif verdict == "?":
+        rep.inconclusive(f"{P}.R5", f"{mm.file.rel}:MetaModule.MappingArray.update_user_defined_controllers", s[:200],
+                         "the objects whose value_type / default are rewritten are not recognised", mm.file.rel)
     else:
         rep.violation(f"{P}.R5", f"{mm.file.rel}:MetaModule.MappingArray.update_user_defined_controllers", s[:200],
                       "user-controller value types must be written to the per-instance UserDefined objects", mm.file.rel)
